@@ -12,10 +12,10 @@ PROPERTY_RULES = {
     "C07": ["r_a12", "r_a13", "r_a2", "r_a9", "r_a11", "r_a8"],
     "C08": ["r_a11", "r_o3", "r_a2", "r_a4", "r_a8", "r_a12", "r_e2", "r_a15"],
     "C09": ["r_c4", "r_c3", "r_c1", "r_c5", "r_c7", "r_c8"],
-    "C10": ["r_c2", "r_c1", "r_e1", "r_c5", "r_c7", "r_c8"],
+    "C10": ["r_c2", "r_c1", "r_e1", "r_c5", "r_c7", "r_c8", "r_c4", "r_c3"],
     "C11": ["r_c2", "r_c1", "r_a6", "r_c5", "r_c4", "r_e1", "r_a8", "r_a9", "r_a16"],
     "C12": ["r_c4", "r_e1"],
-    "C13": ["r_e4", "r_a6", "r_c3", "r_e1", "r_a13", "r_a16"],
+    "C13": ["r_e4", "r_a6", "r_c3", "r_e1", "r_a13", "r_a16", "r_c7", "r_a8"],
     "C14": ["r_d1"],
     "C15": ["r_d2", "r_d3"],
     "C16": ["r_e1", "r_e2", "r_e5"],
